@@ -108,6 +108,9 @@ func (p *h3peer) serve(conn quic.Connection) {
 		return
 	}
 	job := v.(*h3job)
+	if job.rd.conns != nil {
+		atomic.AddInt32(job.rd.conns, 1)
+	}
 	ctx := conn.Context()
 	ctl := job.x.Control
 	if ctl == nil {
@@ -432,6 +435,14 @@ func h3Sequences() []h3gen {
 			return f[:r.Intn(len(f))]
 		}},
 		// ---- control stream ----
+		{"connclose-on-request", func(r *hk.Rand, c *Case) []byte {
+			// every connection is closed as soon as its request stream arrives: however replayable the
+			// request, the call must end after a bounded number of dials
+			c.Rounds = []Round{{End: "connclose"}}
+			c.H3.Code = hk.Pick(r, []uint64{0x100, 0x101, 0x102, 0x10c, 0})
+			c.Method = hk.Pick(r, []string{"GET", "HEAD", "POST", "GET"})
+			return nil
+		}},
 		{"ctl-settings-twice", func(r *hk.Rand, c *Case) []byte { c.H3.Control = ctl(h3settings(), h3settings()); return h3ok("x") }},
 		{"ctl-settings-too-large", func(r *hk.Rand, c *Case) []byte {
 			c.H3.Control = ctl(h3frameLen(4, hk.Pick(r, []uint64{8193, 1 << 30, maxVI}), make([]byte, 9000)))
@@ -576,6 +587,9 @@ func genH3Cases(r *hk.Rand, quick bool, add func(*Case)) {
 	}
 	for _, g := range h3Sequences() {
 		reps := reps
+		if g.shape == "connclose-on-request" && reps < 4 {
+			reps = 4
+		}
 		if g.shape == "uni-event-order" {
 			reps = 12
 			if !quick {
